@@ -203,6 +203,9 @@ def fresh_and_equal(kind, self, result):
         va, vb = getattr(self, name), getattr(result, name)
         if name in ('center', 'start', 'end', 'vertices', 'region1', 'region2'):
             ok = ok and va is not vb
+        elif hasattr(va, 'unit'):
+            # a Quantity is mutable in place (q *= 2, q += ..., q <<= unit): the copy must hold its own
+            ok = ok and va is not vb
     return ok
 
 
